@@ -247,6 +247,28 @@ theorem c15_reported_deadlock_is_handled (h : HSt) (ops : List HOp) (hk : ∀ op
   · rw [hpass]; exact kinv_run _ hk1 (freshStarts_finishes _ _)
   · rw [hpass]; exact edgesLive_run _ hk1 hl1 (freshStarts_finishes _ _)
 
+/-- **A maintenance run is a step histories may contain.**  `run_maintenance` (`check_and_boost`, then
+    `Watchdog.execute`) keeps the two invariants the history theorems start from — every listed context tracks what its
+    operation owns, both endpoints of every recorded edge are listed — and so does `check_and_boost` alone: after either,
+    `c15_tracking_invariant_along_histories`, `c15_recorded_edges_join_live_operations` and
+    `c15_reported_deadlock_is_handled` apply again, so histories that interleave controller calls with maintenance runs
+    and priority boosts are covered (audit F4: "maintenance (boosts) is not a history step"). -/
+theorem c15_invariants_survive_a_maintenance_run (s : Sys) (hk : ∀ op, Kinv s op) (hl : EdgesLive s) :
+    ((∀ op, Kinv (checkAndBoost s).1 op) ∧ EdgesLive (checkAndBoost s).1) ∧
+    ((∀ op, Kinv (maintenance s).1 op) ∧ EdgesLive (maintenance s).1) := by
+  have hso := sameOwn_checkAndBoost s
+  have hkb : ∀ op, Kinv (checkAndBoost s).1 op := fun op => kinv_sameOwn hso (hk op)
+  have hlb : EdgesLive (checkAndBoost s).1 := by
+    intro w b r he
+    rw [hso.edges] at he
+    exact ⟨listed_of_ids hso.ids (hl w b r he).1, listed_of_ids hso.ids (hl w b r he).2⟩
+  refine ⟨⟨hkb, hlb⟩, ?_⟩
+  have hpass : (maintenance s).1 =
+      (hrun ⟨(checkAndBoost s).1, []⟩ (((wdCheck (checkAndBoost s).1).map (·.1)).map HOp.finish)).sys :=
+    (hrun_finishes_sys _ ⟨(checkAndBoost s).1, []⟩).symm
+  rw [hpass]
+  exact ⟨kinv_run _ hkb (freshStarts_finishes _ _), edgesLive_run _ hkb hlb (freshStarts_finishes _ _)⟩
+
 /-! ### The open finding: the recorded graph is not the reference graph -/
 
 -- FULL (false on the current tree):
@@ -462,6 +484,26 @@ example : XTrigFree r0 cOps ∧ XFreshStarts r0 cOps ∧ detectCycle (xrun r0 cO
   refine ⟨?_, ?_, by decide, by decide, by decide, by decide⟩
   · simp only [XTrigFree, cOps]; decide
   · simp only [XFreshStarts, cOps]; decide
+
+/-- the hypotheses of `c15_invariants_survive_a_maintenance_run` are satisfiable on a state with a deadlock, a lead-in
+    and a boost to make (`bOps` above): reached from the system with three free resources — which satisfies both
+    invariants — by a history with fresh starts, hence (`kinv_run`, `edgesLive_run`) satisfying them too -/
+example : (∀ op, Kinv (hrun b0 bOps).sys op) ∧ EdgesLive (hrun b0 bOps).sys ∧
+    (maintenance (hrun b0 bOps).sys).2.1.map (fun e => (e.1, e.2.2)) = [(7, 1), (1, 2), (7, 2), (1, 9), (7, 9)] := by
+  have h0 : ∀ o r, ¬ Owns b0.sys o r := by
+    rintro o r ⟨l, hl, ho⟩
+    simp only [b0, Sys.register] at hl
+    split at hl
+    · cases hl; cases ho
+    · split at hl
+      · cases hl; cases ho
+      · split at hl
+        · cases hl; cases ho
+        · cases hl
+  have hk0 : ∀ op, Kinv b0.sys op := fun o => ⟨fun _ _ _ x hx => absurd hx (h0 o x), fun _ x => h0 o x⟩
+  have hl0 : EdgesLive b0.sys := by rintro w b r ⟨e, he, _⟩; cases he
+  have hf : FreshStarts b0 bOps := by simp only [FreshStarts, bOps]; decide
+  exact ⟨kinv_run bOps hk0 hf, edgesLive_run bOps hk0 hl0 hf, by decide⟩
 
 /-- the hypotheses of `c15_exact_partial` are satisfiable: `r0` is `Good`, `rOps` is trigger-free (above) -/
 example : Good r0 := by
